@@ -93,6 +93,68 @@ Proof.
   intro H; inversion H; subst. eexists; eexists; reflexivity.
 Qed.
 
+
+(* the tree as it is: an Ok body is the body of a finished decoder, or the connection ended on an
+   unfinished one (for Content-Length / chunked that is finding F9, for read-to-close it is the
+   legitimate end) *)
+Lemma orig_complete_or_known c k buf segs closed body ft :
+  cc_payload c = Some k -> fresh k -> nonempty segs ->
+  body_result v_orig c buf segs closed = (BOk body, ft) ->
+  (exists k' rest, pbw k (buf ++ concat segs) [] = Ok (k', rest, body, true)) \/
+  (closed = true /\ exists k' r, pbw k (buf ++ concat segs) [] = Ok (k', r, body, false)).
+Proof.
+  intros Hc Hk Hne. rewrite (body_result_sem v_orig c k) by assumption.
+  destruct (pbw k (buf ++ concat segs) []) as [|[[[k' r] b] [|]]| |]; cbn [body_end v_orig f9_fixed andb]; try discriminate.
+  - intro H; inversion H; subst. left. eexists; eexists; reflexivity.
+  - destruct closed; [|discriminate]. intro H; inversion H; subst. right. split; [reflexivity|]. eexists; eexists; reflexivity.
+Qed.
+
+(* ---- where an item returned by Framed::next_item comes from ------------------------------- *)
+Section Origin.
+  Context {C I E : Type}.
+  Variable dec : C -> bytes -> dres E (C * bytes * option I).
+  Variable deof : C -> bytes -> dres E (C * bytes * option I).
+
+  Lemma eof_ret_item c b i c' f' :
+    eof_ret deof c b = NItem i c' f' -> exists r, deof c b = DOk (c', r, Some i).
+  Proof.
+    unfold eof_ret. destruct (deof c b) as [[[c1 b1] [it|]]|e|]; intro H; inversion H; subst.
+    eexists; reflexivity.
+  Qed.
+
+  Lemma next_item_origin : forall segs c f closed i c' f' segs',
+    next_item dec deof c f segs closed = (NItem i c' f', segs') ->
+    exists c0 b r, dec c0 b = DOk (c', r, Some i) \/ deof c0 b = DOk (c', r, Some i).
+  Proof.
+    induction segs as [|seg more IH]; intros c f closed i c' f' segs'; cbn [next_item]; unfold pre.
+    - destruct (f_readable f).
+      + destruct (f_eof f).
+        * intro H; inversion H as [[H1 H2]]. apply eof_ret_item in H1 as [r Hr]. do 3 eexists; right; exact Hr.
+        * destruct (dec c (f_buf f)) as [[[c1 b1] [it|]]|e|] eqn:Ed; try (intro H; discriminate H).
+          -- intro H; inversion H; subst. do 3 eexists; left; exact Ed.
+          -- destruct closed; [|intro H; discriminate H]. intro H; inversion H as [[H1 H2]].
+             apply eof_ret_item in H1 as [r Hr]. do 3 eexists; right; exact Hr.
+      + destruct closed; [|intro H; discriminate H]. intro H; inversion H as [[H1 H2]].
+        apply eof_ret_item in H1 as [r Hr]. do 3 eexists; right; exact Hr.
+    - assert (Hread : forall c1 f1,
+                match seg with
+                | [] => (eof_ret deof c1 (f_buf f1), more)
+                | _ :: _ => next_item dec deof c1 (mk_framed (f_buf f1 ++ seg) true false) more closed
+                end = (NItem i c' f', segs') ->
+                exists c0 b r, dec c0 b = DOk (c', r, Some i) \/ deof c0 b = DOk (c', r, Some i)).
+      { intros c1 f1. destruct seg.
+        - intro H; inversion H as [[H1 H2]]. apply eof_ret_item in H1 as [r Hr]. do 3 eexists; right; exact Hr.
+        - apply IH. }
+      destruct (f_readable f).
+      + destruct (f_eof f).
+        * intro H; inversion H as [[H1 H2]]. apply eof_ret_item in H1 as [r Hr]. do 3 eexists; right; exact Hr.
+        * destruct (dec c (f_buf f)) as [[[c1 b1] [it|]]|e|] eqn:Ed; try (intro H; discriminate H).
+          -- intro H; inversion H; subst. do 3 eexists; left; exact Ed.
+          -- apply Hread.
+      + apply Hread.
+  Qed.
+End Origin.
+
 (* 4. read-to-close bodies end, legitimately, where the connection ends *)
 Lemma read_to_close v c buf segs :
   cc_payload c = Some KEof -> nonempty segs ->
@@ -141,6 +203,57 @@ Section Head.
         * intro H; inversion H; subst; intros _; congruence.
         * intro H; inversion H; subst; intros _; congruence.
       + intro H; inversion H; subst. congruence.
+  Qed.
+
+  (* every head the codec returns carries a status the tokenizer produced *)
+  Lemma cc_decode_status c b c' r h :
+    cc_decode hp maxb c b = DOk (c', r, Some h) ->
+    exists len ver hs, hp b = RComplete len ver (rh_status h) hs.
+  Proof.
+    unfold cc_decode, response_decode.
+    destruct (cc_payload c); [discriminate|].
+    destruct (hp b) as [|len ver st hs|e] eqn:Eh.
+    - destruct (maxb <=? lenN b); discriminate.
+    - destruct ((st <? 100) || (999 <? st)); [discriminate|].
+      destruct (set_headers ver hs) as [[[pl ka] ex]|]; [|discriminate].
+      destruct (if plen_is_zero pl then LNone else pl);
+        try (destruct (st =? 101); [|destruct ver]);
+        intro H; inversion H; subst; cbn [rh_status]; do 3 eexists; reflexivity.
+    - discriminate.
+  Qed.
+
+  (* the peer sends no interim head: no buffer the client ever tokenizes is a 1xx (other than
+     101) head *)
+  Definition no_interim_heads : Prop :=
+    forall b len ver st hs, hp b = RComplete len ver st hs ->
+      (100 <=? st) && (st <? 200) && negb (st =? 101) = false.
+
+  Lemma head_next_status c f segs closed h c' f' segs' :
+    head_next hp maxb c f segs closed = (NItem h c' f', segs') ->
+    exists b len ver hs, hp b = RComplete len ver (rh_status h) hs.
+  Proof.
+    intro H. unfold head_next in H. apply next_item_origin in H as (c0 & b & r & [Hd|Hd]).
+    - apply cc_decode_status in Hd as (len & ver & hs & Hd). eauto.
+    - unfold deof_default in Hd.
+      destruct (cc_decode hp maxb c0 b) as [[[c1 b1] [it|]]|e|] eqn:Ed; try discriminate.
+      + inversion Hd; subst. apply cc_decode_status in Ed as (len & ver & hs & Ed). eauto.
+      + destruct b1; discriminate.
+  Qed.
+
+  (* outside the class of F17 the head returned is final, on the tree as it is (and on any variant) *)
+  Lemma no_interim_outside_known : forall fuel v c f segs closed h c' f' segs',
+    no_interim_heads ->
+    read_head hp maxb v fuel c f segs closed = HHead h c' f' segs' ->
+    is_interim h = false.
+  Proof.
+    intros fuel v c f segs closed h c' f' segs' Hn.
+    assert (G : forall h1 c1 f1 s1, head_next hp maxb c f segs closed = (NItem h1 c1 f1, s1) -> is_interim h1 = false).
+    { intros h1 c1 f1 s1 E. apply head_next_status in E as (b & len & ver & hs & E).
+      unfold is_interim. eapply Hn; exact E. }
+    destruct fuel; cbn [read_head];
+      destruct (head_next hp maxb c f segs closed) as [[c1 f1|h1 c1 f1|c1 f1|e|] s1] eqn:E; try discriminate;
+      rewrite (G _ _ _ _ eq_refl), andb_false_r; cbn [andb];
+      intro H; inversion H; subst; apply (G _ _ _ _ eq_refl).
   Qed.
 End Head.
 
